@@ -48,14 +48,17 @@ enum Place {
     AfterPlainAggregate,
     /// … and downstream of it
     BeforePlainAggregate,
+    /// a windowed filter right after a de-duplication (`group {a, b} (take 1)`): the window must see the
+    /// distinct rows
+    AfterDistinct,
 }
 
 /// One window program. Base relation: `from t | select {a, b}` (closed) or `from t` (open).
 fn gen(c: &mut Ctx, tier: Tier) -> Option<Program> {
     let open = tier == Tier::Thorough && c.flag("open-source");
     let places: &[Place] = match tier {
-        Tier::Quick => &[Place::Derive, Place::Filter, Place::AfterPlainAggregate],
-        Tier::Thorough => &[Place::Derive, Place::Filter, Place::Select, Place::SortKey, Place::DeriveThenFilter, Place::FilterThenDerive, Place::AfterTake, Place::AfterPlainAggregate, Place::BeforePlainAggregate],
+        Tier::Quick => &[Place::Derive, Place::Filter, Place::AfterPlainAggregate, Place::AfterDistinct],
+        Tier::Thorough => &[Place::Derive, Place::Filter, Place::Select, Place::SortKey, Place::DeriveThenFilter, Place::FilterThenDerive, Place::AfterTake, Place::AfterPlainAggregate, Place::BeforePlainAggregate, Place::AfterDistinct],
     };
     let place = *c.pick(places, "placement");
     let partitioned = c.flag("partition-by-a");
@@ -85,7 +88,7 @@ fn gen(c: &mut Ctx, tier: Tier) -> Option<Program> {
     let wstep = match place {
         Place::Derive | Place::DeriveThenFilter | Place::FilterThenDerive | Place::AfterTake | Place::AfterPlainAggregate | Place::BeforePlainAggregate => Step::Derive(vec![Item { alias: Some("w".into()), e: win }]),
         Place::Select => Step::Select(vec![Item { alias: None, e: E::Col(cb) }, Item { alias: Some("w".into()), e: win }]),
-        Place::Filter => Step::Filter(test),
+        Place::Filter | Place::AfterDistinct => Step::Filter(test),
         Place::SortKey => Step::Sort(vec![(false, win)]),
     };
     let mut inner: Vec<Step> = vec![];
@@ -110,6 +113,12 @@ fn gen(c: &mut Ctx, tier: Tier) -> Option<Program> {
     }
     if place == Place::FilterThenDerive {
         steps.push(Step::Filter(E::bin(Op::Gt, E::Col(1), E::Int(1))));
+    }
+    if place == Place::AfterDistinct {
+        if open {
+            return None;
+        }
+        steps.push(Step::Group { keys: vec![0, 1], inner: vec![Step::Take(Some(1), Some(1))] });
     }
     if place == Place::AfterTake {
         steps.push(Step::Sort(vec![(true, E::Col(1)), (false, E::Col(0))]));
@@ -185,7 +194,7 @@ pub fn run(tier: Tier) -> i32 {
     run.states = cases.len() as u64;
     run.transitions = st.points;
     run.set("bounds", json!({"partition": ["none","a"], "sort": ["none","b","-b","{a,-b}"], "frames": frames().iter().map(|f| format!("{f:?}")).collect::<Vec<_>>(),
-        "functions": FNS.iter().map(|f| f.name()).collect::<Vec<_>>(), "placements": tier.pick(3, 9), "sources": tier.pick("closed", "closed+open"), "instances": pool.len(), "engine_executions": st.executions}));
+        "functions": FNS.iter().map(|f| f.name()).collect::<Vec<_>>(), "placements": tier.pick(4, 10), "sources": tier.pick("closed", "closed+open"), "instances": pool.len(), "engine_executions": st.executions}));
     run.set("rule", json!("states = distinct window programs; validated = (program, instance, target) triples executed on SQLite and compared (multiset, or admissible order) with the reference window evaluation; positional functions / rows frames are decided only where the order is total in every partition"));
     run.assume("SQLite window functions are trusted; range frames decided only for a single non-null numeric key");
     run.finish()
